@@ -16,7 +16,8 @@ props.prop(
                 'per-instance guards may skip it), every such broadcast must be preceded by the mutation, the '
                 'identifier-holding structures must be updated together, and shape/validity guards must dominate insertion.',
     decides='must-announce and no-spurious-announcement for add/remove/reorder/re-identify/update of components, labels, '
-            'subsets and collection membership; coupled update of the id-holding structures; guard-before-insert',
+            'subsets and collection membership (path-sensitively: boolean locals are followed along the paths), in every method '
+            'that broadcasts these messages; coupled update of the id-holding structures; guard-before-insert',
     not_decided='uniqueness of identifiers, that shapes are actually equal, lookup precedence, payload values of messages',
     assumptions=['messages are only sent through hub.broadcast'])
 
